@@ -101,6 +101,8 @@ Genomes == IF Mode = "file" THEN LET q == ndJsonDeserialize(IOEnv.GENOMES) IN {q
                        IN {<<pad, n>> : n \in {0, 1} \cup {m \in 20..260 : WrapperCost + (m + 1) * c \in (StackLimit - 12)..(StackLimit + 12)}}
                        : pad \in RecPads}
            ELSE {}
+\* the recursion family contains the exact tie of the limit comparison (accounted height = limit: no trap)
+ASSUME Mode = "rec" => \E q \in Genomes : Frames(q[1], q[2]) = StackLimit
 \* exhaustive mode: the genomes are the leaves of the tree of prefixes (explored in parallel)
 Init == IF Mode = "exh" THEN g = <<>> ELSE g \in Genomes
 Next == Mode = "exh" /\ Len(g) < GLen /\ \E x \in 0..GMax : g' = Append(g, x)
